@@ -68,3 +68,81 @@ func VerifC14_Plan(n, k, win, pat, devPat, order int) {
 	verifNoGlobalWritesExcept("") // C10: no hidden package-level state is written
 	verifReach("done")
 }
+
+// Device sets that reach beyond the network's current plan (stale CFList / NewChannelReq channels the network has
+// dropped): ext further indices N .. N+ext-1 may be enabled on the device (each one symbolic). Such a channel is not
+// a network channel, so the plan must take the device to the same set as before - and the planner must get there
+// without panicking. pos 0: the stale indices come last in the device list, 1: first, 2: descending list.
+func VerifC14_PlanBeyond(n, k, ext, pos int) {
+	b, in, _ := c15State(n, 0, 0, k, -1, 0)
+	N := len(in.uplinkChannels)
+	member := make([]bool, N+ext)
+	for i := 0; i < N+ext; i++ {
+		if i > N && i < N+ext-1 && ext > 4 {
+			continue // long reach: only the first and the last stale index are symbolic
+		}
+		member[i] = verifNondetBool("deviceHas")
+	}
+	anyStale := false
+	for i := N; i < N+ext; i++ {
+		if member[i] {
+			anyStale = true
+		}
+	}
+	var dev []int
+	switch pos {
+	case 0:
+		for i := 0; i < N+ext; i++ {
+			if member[i] {
+				dev = append(dev, i)
+			}
+		}
+	case 1:
+		for i := N; i < N+ext; i++ {
+			if member[i] {
+				dev = append(dev, i)
+			}
+		}
+		for i := 0; i < N; i++ {
+			if member[i] {
+				dev = append(dev, i)
+			}
+		}
+	default:
+		for i := N + ext - 1; i >= 0; i-- {
+			if member[i] {
+				dev = append(dev, i)
+			}
+		}
+	}
+	var want []int
+	same := !anyStale
+	for i := 0; i < N; i++ {
+		c := in.uplinkChannels[i]
+		w := c.enabled && (!c.custom || member[i])
+		if w {
+			want = append(want, i)
+		}
+		if w != member[i] {
+			same = false
+		}
+	}
+	plan := b.GetLinkADRReqPayloadsForEnabledUplinkChannelIndices(dev)
+	for _, p := range plan {
+		_, err := p.MarshalBinary()
+		verifAssert(err == nil, "every generated LinkADRReq payload is encodable (device set beyond the plan)")
+	}
+	verifAssert(len(plan) <= (N+ext+15)/16+1, "at most one payload per 16-channel block plus one (device set beyond the plan)")
+	if same {
+		verifAssert(len(plan) == 0, "nothing is produced when the device already matches (device set beyond the plan)")
+	}
+	got, err := b.GetEnabledUplinkChannelIndicesForLinkADRReqPayloads(dev, plan)
+	verifAssert(err == nil, "applying the generated payloads succeeds (device set beyond the plan)")
+	verifAssert(len(got) == len(want), "a channel the network does not have is switched off; the rest reaches the network's set (count)")
+	for i := range want {
+		if i < len(got) {
+			verifAssert(got[i] == want[i], "a channel the network does not have is switched off; the rest reaches the network's set (members)")
+		}
+	}
+	verifReach("done")
+}
